@@ -48,14 +48,20 @@ BUDGET = 400         # the Prolog driver stops itself after this many events
 # nothing but the first argument can be indexed; with all K variables the predicate is not indexed at all.
 def gen_case(rng):
     """-> (l0, l1, nu, goals)"""
-    mode = rng.choice(["core", "core", "indexed", "indexed", "mixed", "mixed", "both"])
+    mode = rng.choice(["core", "core2", "core2", "core2", "indexed", "indexed", "mixed", "both"])
     keyset = rng.choice([[0, 1], [0, 1, 2], [0, 2, 4, 5], [0, 1, 2, 3, 4, 5]])
+    if mode == "core2":
+        # keys >= 10 live in the SECOND argument of b/2 (first arguments are all variables: no first-argument indexing),
+        # so that retract/1 and calls can single out any clause, the last one included, on an unindexed predicate
+        keyset = [k + 10 for k in keyset]
 
     def bkey():
         if mode == "core":
             return None
+        if mode == "core2":
+            return rng.choice(keyset)
         return None if rng.random() < 0.5 else rng.choice(keyset)
-    n0 = 0 if mode in ("core", "mixed") else rng.choice([0, 1, 2, 3, 3, 4, 5])
+    n0 = 0 if mode in ("core", "core2", "mixed") else rng.choice([0, 1, 2, 3, 3, 4, 5])
     n1 = 0 if mode == "indexed" else rng.choice([0, 1, 2, 3, 3, 4, 5])
     uid = 0
     l0, l1 = [], []
@@ -66,7 +72,7 @@ def gen_case(rng):
     ng = rng.choice([2, 3, 3, 4, 4, 5, 5, 6, 7])
     goals = []
     for _ in range(ng):
-        if mode in ("core", "mixed"):
+        if mode in ("core", "core2", "mixed"):
             p = 1
         elif mode == "indexed":
             p = 0
@@ -98,8 +104,8 @@ def gen_case(rng):
 def indexable(case, p):
     """does predicate p ever hold a clause with a constant first argument in this driver?"""
     l0, l1, nu, goals = case
-    return any(k is not None for (_, k) in (l0, l1)[p]) or \
-        any(g[0] in ("assertz", "asserta") and g[1] == p and g[2] is not None for g in goals)
+    return any(k is not None and k < 10 for (_, k) in (l0, l1)[p]) or \
+        any(g[0] in ("assertz", "asserta") and g[1] == p and g[2] is not None and g[2] < 10 for g in goals)
 
 
 def kmatch(q, k):
@@ -225,7 +231,11 @@ def simulate(l0, l1, nu, goals, cap=CAP):
 
 # ------------------------------------------------------------------ Prolog driver
 def ktxt(k):
-    return "_" if k is None else KEYTXT[k]
+    return "_" if k is None else KEYTXT[k % 10]
+
+
+def second_arg_style(l1, goals):
+    return any(k is not None and k >= 10 for (_, k) in l1) or any(g[1] == 1 and g[2] is not None and g[2] >= 10 for g in goals)
 
 
 def driver(j, l0, l1, nu, goals):
@@ -233,8 +243,12 @@ def driver(j, l0, l1, nu, goals):
     out = [":- dynamic(%s/2).\n:- dynamic(%s/2).\n" % (A, B)]
     for (u, k) in l0:
         out.append("%s(%s, %d).\n" % (A, ktxt(k), u))
+    style2 = second_arg_style(l1, goals)
     for (u, k) in l1:
-        out.append("%s(%s, T) :- T = %d.\n" % (B, ktxt(k), u))
+        if style2:
+            out.append("%s(_, %s-%d).\n" % (B, ktxt(k), u))
+        else:
+            out.append("%s(%s, T) :- T = %d.\n" % (B, ktxt(k), u))
     out.append("note_%s(E) :- bb_get(lg_%s, L), bb_put(lg_%s, [E|L]), length(L, N), ( N >= %d -> throw(budget_%s) ; true ).\n" % (j, j, j, BUDGET, j))
     out.append("fresh_%s(N) :- bb_get(cnt_%s, N), N1 is N+1, bb_put(cnt_%s, N1).\n" % (j, j, j))
     out.append("log_%s(L) :- bb_get(lg_%s, L0), reverse(L0, L).\n" % (j, j))
@@ -246,11 +260,16 @@ def driver(j, l0, l1, nu, goals):
             call = "%s(%s, %s)" % (A, ktxt(q), T)
             cl = call                                   # clause term for assert / retract
             clause = "clause(%s, true)" % call
+        elif style2:
+            # the call leaves both arguments unbound and selects afterwards: no index (whichever argument it is built on) is consulted by the call
+            call = "( %s(_, P%d), P%d = %s-%s )" % (B, k, k, ktxt(q), T)
+            cl = "%s(_, %s-%s)" % (B, ktxt(q), T)
+            clause = "( clause(%s(_, P%d), true), P%d = %s-%s )" % (B, k, k, ktxt(q), T)
         else:
             call = "%s(%s, %s)" % (B, ktxt(q), T)
             cl = "(%s(%s, X%d) :- X%d = %s)" % (B, ktxt(q), k, k, T)
             clause = "clause(%s(%s, X%d), X%d = %s)" % (B, ktxt(q), k, k, T)
-        head_any = "%s(%s, _)" % ((A, B)[p], ktxt(q))
+        head_any = ("%s(_, %s-_)" % (B, ktxt(q))) if (p == 1 and style2) else "%s(%s, _)" % ((A, B)[p], ktxt(q))
         if kind == "gen":
             body.append("( %s, %s(y(%d,%s)) ; %s(d(%d)), fail )" % (call, n, k, T, n, k))
         elif kind == "once":
@@ -512,6 +531,22 @@ def run(ctx):
     cases, mlogs, infos = [], [], []
     seen = set()
     dropped = 0
+    # corpus (always run first): an open call, the LAST clause retracted and a clause appended while it is open
+    # (seeded change seeded/C09-chain-tail: assertz unlinked retracted clauses at the end of the chain), and variants
+    corpus = [
+        ([], [(0, 10), (1, 11), (2, 12)], 3, [("gen", 1, None), ("retract1", 1, 12), ("assertz", 1, 13)]),
+        ([], [(0, 10), (1, 11), (2, 12)], 3, [("gen", 1, None), ("retract1", 1, 12), ("assertz", 1, 13), ("listg", 1, None)]),
+        ([], [(0, 10), (1, 11), (2, 12), (3, 13)], 4, [("gen", 1, None), ("retract1", 1, 13), ("retract1", 1, 12), ("assertz", 1, 14), ("gen", 1, None)]),
+        ([], [(0, 10), (1, 11), (2, 12)], 3, [("gen", 1, None), ("retract1", 1, 12), ("asserta", 1, 13), ("assertz", 1, 14)]),
+        ([], [(0, 10), (1, 10), (2, 10)], 3, [("gen", 1, 10), ("rgen", 1, 10), ("assertz", 1, 10)]),
+        ([], [(0, 10), (1, 11)], 2, [("gen", 1, None), ("retract1", 1, 11), ("assertz", 1, 11), ("retract1", 1, 11), ("assertz", 1, 12)]),
+    ]
+    for case in corpus:
+        try:
+            log, info = simulate(*case)
+        except TooLong:
+            continue
+        seen.add(repr(case)); cases.append(case); mlogs.append(log); infos.append(info)
     while len(cases) < n_cases:
         case = gen_case(rng)
         key = repr(case)
